@@ -228,6 +228,13 @@ def build_graph(rng, root):
             nm = rng.choice(GAME_LOOP)
             slots.insert(rng.randint(0, len(slots)), (b'function ' + nm + b'.helper() return 2 end\n', True))
             feats.add('dotted_gameloop_name')
+        if rng.random() < 0.2:
+            # a game-loop name as the LAST component of a dotted / method name is an ordinary function of the package
+            nm = rng.choice(GAME_LOOP)
+            slots.insert(rng.randint(0, len(slots)), (rng.choice((b'function scenes.title.' + nm + b'() return 4 end\n',
+                                                                  b'function obj:' + nm + b'() return 5 end\n',
+                                                                  b'function st.' + nm + b'(a)\n if (a) return 6\nend\n')), True))
+            feats.add('gameloop_name_as_last_component')
         if rng.random() < 0.15:
             nm = rng.choice(GAME_LOOP)
             slots.insert(rng.randint(0, len(slots)), (b'do\n function ' + nm + b'() return 3 end\nend\n', True))
@@ -594,7 +601,7 @@ def gates(m, tier):
               'require_form:stmt', 'require_form:assign', 'require_form:local', 'require_form:field', 'require_form:callarg',
               'require_form:chain', 'require_form:nestedfn', 'require_form:in_if', 'require_form:in_else', 'require_form:in_shortif',
               'require_form:in_loop', 'require_form:in_cond', 'error:missing', 'error:noargs', 'error:threeargs', 'error:nonstring',
-              'error:badoption', 'gameloop_with_comment_before_or_code_after', 'one_file_two_names_opposite_options', 'main_starts_with_comment'):
+              'error:badoption', 'gameloop_with_comment_before_or_code_after', 'gameloop_name_as_last_component', 'dotted_gameloop_name', 'one_file_two_names_opposite_options', 'main_starts_with_comment'):
         if f.get(k, 0) < 2:
             missed.append('%s seen %d times' % (k, f.get(k, 0)))
     if mon.get('package_bodies_compared', 0) < 100:
